@@ -221,6 +221,12 @@ func computeOracle(op *Op, ll []*LLValidator, variant string) Outcome {
 		o.Recycle = false
 	}
 	ctx := &rt.OpCtx{UID: op.UID, Kind: kindNums[op.Kind], OrderSeed: op.OrderSeed, Oracle: true}
+	if strings.HasPrefix(variant, "coe=") {
+		// the operation alone under an explicit package-level default (put back afterwards)
+		was := validate.VerifDefaultOpts().ContinueOnErrors
+		validate.SetContinueOnErrors(variant == "coe=true")
+		defer validate.SetContinueOnErrors(was)
+	}
 	return env.Exec(&o, ctx)
 }
 
